@@ -366,10 +366,61 @@ func (d *digest) sum(fr *frame) value {
 	if w == 64 {
 		kind = types.Uint64
 	}
+	if len(px.pins) > 0 {
+		for i, a := range d.data {
+			d.data[i] = px.pinned(a)
+		}
+	}
 	if b, ok := goBytes(d.data); ok {
 		r := d.concrete(b)
 		px.crcApps = append(px.crcApps, &crcApp{alg: d.algKey(), args: append([]value{}, d.data...), res: ts.Const(w, r)})
 		return fromBits(kind, r)
+	}
+	// CRCs are affine over GF(2): with few symbolic bytes the exact value is
+	//   crc(m) = crc(m with the symbolic bytes zeroed) ⊕ ⨁_{byte p, bit i} (bit ? lin(e_{p,i}) : 0)
+	// where lin(e) = crc(e) ⊕ crc(0^L). No idealisation is needed then.
+	if d.alg == "crc32" || d.alg == "crc64" {
+		nsym := 0
+		for _, a := range d.data {
+			if _, ok := a.(sym); ok {
+				nsym++
+			}
+		}
+		if nsym <= 12 {
+			L := len(d.data)
+			base := make([]byte, L)
+			for i, a := range d.data {
+				if c, ok := a.(uint8); ok {
+					base[i] = c
+				}
+			}
+			zeroCrc := d.concrete(make([]byte, L))
+			acc := ts.Const(w, d.concrete(base))
+			unit := make([]byte, L)
+			for p, a := range d.data {
+				sa, ok := a.(sym)
+				if !ok {
+					continue
+				}
+				for i := uint8(0); i < 8; i++ {
+					unit[p] = 1 << i
+					lin := d.concrete(unit) ^ zeroCrc
+					unit[p] = 0
+					bit := ts.Cmp(opEq, ts.Extract(sa.t, i, i), ts.Const(1, 1))
+					acc = ts.Bin(opXor, acc, ts.Ite(bit, ts.Const(w, lin), ts.Const(w, 0)))
+				}
+			}
+			px.note("exact-linear-crc")
+			// self-check under the current model
+			conc := make([]byte, L)
+			for i, a := range d.data {
+				conc[i] = byte(px.eval(ts.termOf(a)))
+			}
+			if px.eval(acc) != d.concrete(conc) {
+				panic(engineError{"linear CRC encoding disagrees with the library"})
+			}
+			return mkV(acc, kind)
+		}
 	}
 	px.note("ideal-checksum")
 	args := append([]value{}, d.data...)
